@@ -27,6 +27,12 @@ var apiIndexPre = map[string]string{
 	"Term": "Len", "Field": "NumFields", "Embedded": "NumEmbeddeds",
 }
 
+var nonNilGlobals = map[string]bool{"os.Stdout": true, "os.Stderr": true, "os.ErrNotExist": true}
+
+// accessors of go/types whose result is never nil (A-types)
+var nonNilAccessor = map[string]bool{"Scope": true, "Type": true, "Underlying": true, "Obj": true, "Params": true, "Results": true, "Elem": true, "Key": true,
+	"At": true, "Method": true, "Complete": true, "EmbeddedType": true, "ExplicitMethod": true, "Term": true, "Field": true, "Constraint": true}
+
 func (e *Exec) externModifies(c *ssa.CallCommon) []string {
 	name := ""
 	if c.IsInvoke() {
@@ -47,10 +53,17 @@ func (e *Exec) extern(fr *frame, st *State, ci ssa.CallInstruction, name string,
 	e.usedExt[name] = true
 	if m, ok := externs[name]; ok {
 		st.events = append(st.events, Event{Kind: "extern", Callee: name, Mode: m.Effect, SVs: args, Instr: ci, Pc: append([]Term(nil), st.pc...)})
+		if m.Effect != "pure" && m.Effect != "alloc" {
+			st.impure = append(st.impure, "calls "+name+" ("+m.Effect+")")
+		}
 		res := m.Fn(e, fr, st, ci, args, rt)
 		res.T = rt
-		if len(st.events) > 0 {
-			st.events[len(st.events)-1].Terms = res.L
+		for k := len(st.events) - 1; k >= 0; k-- {
+			if st.events[k].Instr == ci {
+				st.events[k].Terms = res.L
+				st.events[k].Res = res
+				break
+			}
 		}
 		return res
 	}
@@ -73,20 +86,32 @@ func (e *Exec) extern(fr *frame, st *State, ci ssa.CallInstruction, name string,
 func (e *Exec) pureAccessor(fr *frame, st *State, ci ssa.CallInstruction, f *types.Func, args []SV, rt types.Type) SV {
 	sig := f.Type().(*types.Signature)
 	var ts []Term
-	for _, a := range args {
+	for i, a := range args {
+		if i == 0 && a.Addr != nil && a.Addr.Kind == AObj && len(a.L) == 0 {
+			// receiver is an embedded field of the object (e.g. &f.object for *types.Func): the object identifies it
+			args[0] = SV{T: a.T, L: []Term{a.Addr.Ref}}
+			a = args[0]
+		}
 		ts = append(ts, a.L...)
 	}
-	if sig.Recv() != nil && len(args) > 0 {
+	if sig.Recv() != nil && len(args) > 0 && len(args[0].L) > 0 {
 		if _, isIface := sig.Recv().Type().Underlying().(*types.Interface); !isIface {
 			e.safety(fr, st, "nil-recv:"+f.Name(), Not(Eq(args[0].L[0], IntLit(0))), ci)
 		}
 	}
-	if lenAcc, ok := apiIndexPre[f.Name()]; ok && len(args) == 2 && args[1].L[0].Sort == SInt {
+	if lenAcc, ok := apiIndexPre[f.Name()]; ok && len(args) == 2 && len(args[0].L) > 0 && len(args[1].L) > 0 && args[1].L[0].Sort == SInt {
 		n := e.ctx.uf("types."+lenAcc, SInt, args[0].L[0])
+		if f.Name() == "Term" {
+			// A-types: a union has at least one term
+			st.pc = append(st.pc, Ge(n, IntLit(1)))
+		}
 		e.safety(fr, st, "api-pre:"+f.Name(), And(Ge(args[1].L[0], IntLit(0)), Lt(args[1].L[0], n)), ci)
 	}
 	res := e.pureMethod(f, sig, ts)
 	res.T = rt
+	if nonNilAccessor[f.Name()] && len(res.L) == 1 && res.L[0].Sort == SInt && isRefType(rt) {
+		st.pc = append(st.pc, Not(Eq(res.L[0], IntLit(0))))
+	}
 	for i, l := range flatten(rt) {
 		if l.Sort == SInt && !isRefType(l.T) && (strings.HasPrefix(f.Name(), "Len") || strings.HasPrefix(f.Name(), "Num")) {
 			st.pc = append(st.pc, Ge(res.L[i], IntLit(0)))
@@ -95,11 +120,25 @@ func (e *Exec) pureAccessor(fr *frame, st *State, ci ssa.CallInstruction, f *typ
 			st.pc = append(st.pc, Ge(res.L[i], IntLit(0)))
 		}
 	}
+	switch f.Name() {
+	case "Method", "ExplicitMethod":
+		// the type of an interface method is a signature
+		if len(res.L) == 1 {
+			st.pc = append(st.pc, Eq(e.dyn(e.ctx.uf("types.Type", SInt, res.L[0])), e.tagOfName("*go/types.Signature")),
+				Not(Eq(e.ctx.uf("types.Type", SInt, res.L[0]), IntLit(0))))
+		}
+	case "Constraint":
+		// the underlying type of a constraint is an interface
+		if len(res.L) == 1 {
+			u := e.ctx.uf("types.Underlying", SInt, res.L[0])
+			st.pc = append(st.pc, Eq(e.dyn(u), e.tagOfName("*go/types.Interface")), Not(Eq(u, IntLit(0))))
+		}
+	}
 	// typed results: a non-nil result of static pointer type *T has dynamic type *T
 	if pt, ok := rt.(*types.Pointer); ok {
 		st.pc = append(st.pc, Implies(Not(Eq(res.L[0], IntLit(0))), Eq(e.dyn(res.L[0]), e.tagOf(pt))))
 	}
-	st.events = append(st.events, Event{Kind: "extern", Callee: pureName(f), Mode: "pure", SVs: args, Instr: ci})
+	st.events = append(st.events, Event{Kind: "extern", Callee: pureName(f), Mode: "pure", SVs: args, Instr: ci, Res: res, Terms: res.L})
 	return res
 }
 
@@ -261,8 +300,8 @@ func init() {
 				A := e.heapGet(st, heapSym("A", "string", ""), ArrSort(SInt, ArrSort(SInt, SString)))
 				w := e.ctx.fresh("joinv", ArrSort(SInt, SString))
 				q := "i!jn"
-				st.pc = append(st.pc, Term{fmt.Sprintf("(forall ((%s Int)) (=> (and (<= 0 %s) (< %s %s)) (= (select %s %s) (select (select %s %s) (+ %s %s)))))",
-					q, q, q, s.L[2].S, w.S, q, A.S, s.L[0].S, s.L[1].S, q), SBool})
+				st.pc = append(st.pc, Term{fmt.Sprintf("(forall ((%s Int)) (=> (and (<= 0 %s) (< %s %s)) (= (select %s %s) (select (select %s %s) %s))))",
+					q, q, q, s.L[2].S, w.S, q, A.S, s.L[0].S, CellIdx(s.L[1], Term{q, SInt}).S), SBool})
 				r := e.ctx.def("join", e.ctx.uf("strings.Join", SString, w, s.L[2], sep))
 				st.pc = append(st.pc,
 					Implies(Eq(s.L[2], IntLit(0)), Eq(r, StrLit(""))),
@@ -479,8 +518,8 @@ func sortSliceModel(e *Exec, fr *frame, st *State, ci ssa.CallInstruction, args 
 	e.ctx.decls = append(e.ctx.decls, fmt.Sprintf("(declare-fun %s (Int) Int)", pi), fmt.Sprintf("(declare-fun %s (Int) Int)", pinv))
 	off, n := s.L[1].S, s.L[2].S
 	st.pc = append(st.pc,
-		Term{fmt.Sprintf("(forall ((i Int)) (=> (and (<= 0 i) (< i %s)) (and (<= 0 (%s i)) (< (%s i) %s) (= (%s (%s i)) i) (= (select %s (+ %s i)) (select %s (+ %s (%s i)))))))",
-			n, pi, pi, n, pinv, pi, newCells.S, off, oldCells.S, off, pi), SBool},
+		Term{fmt.Sprintf("(forall ((i Int)) (=> (and (<= 0 i) (< i %s)) (and (<= 0 (%s i)) (< (%s i) %s) (= (%s (%s i)) i) (= (select %s %s) (select %s %s))))))",
+			n, pi, pi, n, pinv, pi, newCells.S, CellIdx(s.L[1], Term{"i", SInt}).S, oldCells.S, CellIdx(s.L[1], Term{"(" + pi + " i)", SInt}).S), SBool},
 		Term{fmt.Sprintf("(forall ((j Int)) (=> (and (<= 0 j) (< j %s)) (and (<= 0 (%s j)) (< (%s j) %s) (= (%s (%s j)) j))))",
 			n, pinv, pinv, n, pi, pinv), SBool},
 		Term{fmt.Sprintf("(forall ((i Int)) (=> (or (< i %s) (>= i (+ %s %s))) (= (select %s i) (select %s i))))", off, off, n, newCells.S, oldCells.S), SBool})
@@ -506,7 +545,7 @@ func sortSliceModel(e *Exec, fr *frame, st *State, ci ssa.CallInstruction, args 
 	}
 	r := e.ctx.fresh("less", SBool)
 	vars["r"] = scalar(types.Typ[types.Bool], r)
-	env := &specEnv{st: st, old: st, vars: vars, oldVars: vars, pkg: pkgOf(fn)}
+	env := &specEnv{into: st, st: st, old: st, vars: vars, oldVars: vars, pkg: pkgOf(fn)}
 	var defs []Term
 	for _, en := range sp.Ensures {
 		g, err := e.evalSpecBool(en.Expr, env)
